@@ -217,6 +217,14 @@ func (n *NestedSpec) build() (msg any, fresh func() any) {
 			m.NamePart, m.IsExtension = proto.String(n.S), proto.Bool(n.J&1 == 1)
 		}
 		return m, func() any { return &descriptorpb.UninterpretedOption_NamePart{} }
+	case "gv2-required-child": // a proto2 message WITHOUT required fields of its own whose child message has two
+		m := &descriptorpb.UninterpretedOption{IdentifierValue: proto.String("id")}
+		if n.Empty {
+			m.Name = []*descriptorpb.UninterpretedOption_NamePart{{}} // the child's required fields are unset
+		} else {
+			m.Name = []*descriptorpb.UninterpretedOption_NamePart{{NamePart: proto.String(n.S), IsExtension: proto.Bool(n.J&1 == 1)}}
+		}
+		return m, func() any { return &descriptorpb.UninterpretedOption{} }
 	case "gogo-required":
 		m := &gogodesc.UninterpretedOption_NamePart{}
 		if !n.Empty {
@@ -247,7 +255,20 @@ type NCase struct {
 // requiredUnset: the nested message is a proto2 message whose required fields are unset - its runtime refuses
 // to marshal it and refuses to unmarshal the (empty) encoding it would have.
 func (n *NestedSpec) requiredUnset() bool {
-	return n.Empty && (n.Flavour == "gv2-required" || n.Flavour == "gogo-required")
+	return n.Empty && (n.Flavour == "gv2-required" || n.Flavour == "gogo-required" || n.Flavour == "gv2-required-child")
+}
+
+// partialPayload: the bytes a message with unset required fields would have (what a lenient writer emits).
+func (n *NestedSpec) partialPayload() []byte {
+	if n.Flavour != "gv2-required-child" {
+		return nil
+	}
+	m, _ := n.build()
+	b, err := proto.MarshalOptions{AllowPartial: true}.Marshal(m.(proto.Message))
+	if err != nil {
+		panic(err)
+	}
+	return b
 }
 
 func nestedEqual(a, b any) bool {
@@ -290,6 +311,9 @@ func oracleC19(c *NCase) (f *ev.Failure) {
 		if err != nil {
 			return ev.Failf("C19/marshal-error/"+fl, "csproto.Marshal: %v", err)
 		}
+	}
+	if c.Nested.requiredUnset() {
+		M = c.Nested.partialPayload() // decode side: what such a message would have on the wire
 	}
 	var prefix, suffix []byte
 	for i, v := range c.Before {
@@ -454,7 +478,7 @@ func oracleC19(c *NCase) (f *ev.Failure) {
 	return nil
 }
 
-var c19Flavours = []string{"marshalto", "marshalonly", "gogo", "legacy", "gv2-timestamp", "gv2-duration", "gv2-struct", "gv2-string", "gv2-bytes", "gv2-descriptor", "gv2-nil", "gv2-required", "gogo-required"}
+var c19Flavours = []string{"marshalto", "marshalonly", "gogo", "legacy", "gv2-timestamp", "gv2-duration", "gv2-struct", "gv2-string", "gv2-bytes", "gv2-descriptor", "gv2-nil", "gv2-required", "gogo-required", "gv2-required-child"}
 
 func genNCase(t *rapid.T) *NCase {
 	c := &NCase{Num: wiregen.FieldNumber().Draw(t, "num")}
@@ -515,7 +539,7 @@ func genNested(t *rapid.T, n *NestedSpec, flavour string, mayFail bool) {
 	}
 }
 
-const ruleC19 = "case = nested message of one of the flavours {MarshalTo stub, Marshal-only stub, plain gogo (descriptor.DescriptorProto), plain pre-APIv2 Google v1 struct with XXX_ methods, plain Google v2 incl. well-known types and typed nil, proto2 message with required fields known only to Google v2 / gogo (unset => its runtime refuses to marshal it and to unmarshal the empty payload)} x value (incl. empty; nested sizes at the 1-, 2- and 3-byte length-prefix limits, deterministic sweep for the stubs) x decoder mode {safe, fast} x decode target {fresh, already holding another value of the flavour} x encoded object {fresh, Google v2 message that held another value, was sized and marshaled, then changed in place} x 0..3 scalar fields before and after x field number up to 2^29-1 x failing nested marshaler/unmarshaler x declared length inflated beyond the buffer; " +
+const ruleC19 = "case = nested message of one of the flavours {MarshalTo stub, Marshal-only stub, plain gogo (descriptor.DescriptorProto), plain pre-APIv2 Google v1 struct with XXX_ methods, plain Google v2 incl. well-known types and typed nil, proto2 message with required fields known only to Google v2 / gogo (unset => its runtime refuses to marshal it and to unmarshal the empty payload), Google v2 message without required fields of its own whose CHILD has unset required fields} x value (incl. empty; nested sizes at the 1-, 2- and 3-byte length-prefix limits, deterministic sweep for the stubs) x decoder mode {safe, fast} x decode target {fresh, already holding another value of the flavour} x encoded object {fresh, Google v2 message that held another value, was sized and marshaled, then changed in place} x 0..3 scalar fields before and after x field number up to 2^29-1 x failing nested marshaler/unmarshaler x declared length inflated beyond the buffer; " +
 	"oracle: exactly-sized sentinel-backed buffer == prefix|key|varint(len M)|M|suffix with M=csproto.Marshal(m); DecodeNested advances by exactly prefix+len, message equal, suffix decodes, nested errors propagate (errors.Is), inflated length is rejected with 0 calls of the nested decoder; " +
 	"non-trivial = non-empty nested message in a flavour other than MarshalTo, or a failing stub, or an inflated length; distinct by case content"
 
